@@ -30,6 +30,10 @@ CLAIMS = {
          "random multi-cuts and malformed/never-completed length fields on ws messages, ws continuation frames, HTTP chunks and chunks split over TCP writes; actual read sizes from the tr.read hook; "
          "TLC compares accepted packets, responses and host bytes with the uncut run (FramingTrace).", "DESIGN.md §4 C08",
          "TLC design check of framing; segmentations replayed on the real gateway; TLC trace validation"),
+ "C11": ("Teardown.tla (resources of a tunnel, ending causes, release steps) model-checked for both transports incl. the liveness property 'ending ~> released'; on the real binary every point of the exchange x every ending "
+         "cause x data in flight x transport, observing within 3 s EOF at the host and on the client connections, loop/relay/unregister hooks, goroutine census and gauges; TLC judges each scenario. "
+         "Open known finding: client closing only the legacy OUT connection.", "DESIGN.md §4 C11",
+         "TLC design check incl. liveness; fault scenarios replayed on the real binary; TLC trace validation"),
  "C12": ("Oidc.tla session/state machine and Policy!Offered host choice model-checked; on the real binary (fake IdP) every selection mode x host list x host parameter class x session state x splitting x client address: "
          "the file is parsed and its token decoded independently, claims judged by TLC (host by policy, user, ClientAddr, session access token), and the same file then drives a real tunnel from the same address.", "DESIGN.md §4 C12",
          "TLC design check; enumerated downloads on the real binary; TLC trace validation"),
